@@ -951,9 +951,20 @@ def _(p, ir, st_, ex, k1, k2, k3, ctx):
 
 
 class SchedCtx:
-    def __init__(self, env=None):
+    def __init__(self, env=None, prog=None):
         self.env = env or {}
+        self.prog = prog
         self._n = 0
+
+    def callee_source(self, name):
+        if not self.prog:
+            return None
+        from .gen.programs import render_proc
+
+        for c in self.prog["callees"]:
+            if c["name"] == name:
+                return render_proc(c)
+        return None
 
     def fresh(self):
         self._n += 1
@@ -1020,3 +1031,57 @@ def apply_step(p, step, ctx):
         desc["err"] = f"returned {type(q).__name__}"
         return None, "internal", desc
     return q, "accepted", desc
+
+
+# ---- call_eqv with callee variants (used by C10; low weight elsewhere)
+
+
+def _callee_variant(ctx, f_proc, k2, k3):
+    """-> (variant Procedure, kind) derived from the callee f_proc (a Procedure)"""
+    kind = k2 % 6
+    if kind == 0:
+        return S.rename(f_proc, f"{f_proc.name()}_r{ctx.fresh()}"), "renamed"
+    if kind == 1:
+        return S.simplify(f_proc), "simplified"
+    if kind == 2:
+        cfgs = ctx.configs()
+        if not cfgs:
+            return None, None
+        (cn, fld, ty), cfg = cfgs[k3 % len(cfgs)]
+        rhs = {"index": "3", "bool": "True", "data": "2.0"}[ty]
+        return S.write_config(f_proc, f_proc.body()[-1].after(), cfg, fld, rhs), f"config-writing({cn}.{fld})"
+    if kind == 3:
+        # unrelated look-alike: same text, new origin
+        src = ctx.callee_source(f_proc.name())
+        if src is None:
+            return None, None
+        from .exoutil import exec_source
+
+        g = exec_source(src, dict(ctx.env))
+        return g[f_proc.name()], "unrelated-lookalike"
+    if kind == 4:
+        ir = f_proc.INTERNAL_proc()
+        st_, ex = collect(ir)
+        loops = _loops(st_)
+        if not loops:
+            return None, None
+        return S.divide_loop(f_proc, cursor_at(f_proc, loops[k3 % len(loops)].path), 2, ["vo", "vi"], tail="cut"), "loop-divided"
+    cfgs = ctx.configs()
+    if not cfgs:
+        return None, None
+    (cn, fld, ty), cfg = cfgs[k3 % len(cfgs)]
+    rhs = {"index": "1", "bool": "False", "data": "0.0"}[ty]
+    return S.write_config(f_proc, f_proc.body()[0].before(), cfg, fld, rhs), f"config-writing-first({cn}.{fld})"
+
+
+@op("call_eqv", 1, group="config")
+def _(p, ir, st_, ex, k1, k2, k3, ctx):
+    s = _pick([s for s in st_ if s.kind == "Call"], k1)
+    if not s:
+        return None
+    c = cursor_at(p, s.path)
+    f_proc = c.subproc()
+    var, kind = _callee_variant(ctx, f_proc, k2, k3)
+    if var is None:
+        return None
+    return (lambda: S.call_eqv(p, c, var)), {"at": path_str(s.path), "callee": f_proc.name(), "variant": kind}
